@@ -150,6 +150,7 @@ Pack(t) ==
     CASE t.k = "atom" -> [k |-> "atom", s |-> t.s]
       [] t.k = "int"  -> [k |-> "int", n |-> t.n, e |-> t.e, s |-> t.s]
       [] t.k = "flt"  -> [k |-> "flt", n |-> t.n, e |-> t.e, s |-> t.s]
+      [] t.k = "ftx"  -> [k |-> "ftx", s |-> t.s]
       [] t.k = "var"  -> [k |-> "var", n |-> t.n, s |-> t.s]
       [] t.k = "cx"   -> [k |-> "cx", s |-> t.s, a |-> PackSeq(t.a)]
       [] t.k = "fn"   -> [k |-> "fn", s |-> t.s, a |-> PackSeq(t.a)]
